@@ -1,13 +1,105 @@
 /-
-  Driver.OpsC12 — protocol operations for property C12 (filled in by the C12 work package).
-  Contract: `handleC12 op` returns the parser for operation `op` or `none` if `op` is not one of
-  this property's operations.
+  Driver.OpsC12 — protocol operations for property C12 (directory mode).
+
+  `c12dir <ims> <imr> <nRes> r… <nRef> f… <nUniv> (<incl> <excl> <supported> <mapped> <outcome>)*`
+      paths are ids `0 … nUniv-1` (the harness numbers the relative paths of the trees it created);
+      the table gives, per id, the filter truth values, `is_supported`, `--read-as` mapping and the
+      file-mode outcome `P|F|E|X`; every id in the two lists must be `< nUniv`.
+      reply: `hyp=<both lists duplicate-free> model=<exit>|<orphans>|<id>:<code>,… spec=…`
+      codes: compared `P F E X`; missing source `MS` (failed) / `ms` (skipped); missing reference `MR`/`mr`;
+      unsupported `U`; filtered `D`. Suites are listed sorted by (id, code).
+  `c12fm <nSrc> s… <nRef> t…`
+      `find_matches` on arbitrary (also duplicate-carrying) lists:
+      reply: `hyp=1 model=<matched>|<orphans source>|<orphans reference>` (ids joined by `,`, order kept)
 -/
 import Driver.Proto
+import FcModel.Spec.C12
 namespace Fc.Drv
+open Fc.DirMode
+
+def pOutcome : P Outcome := do
+  let t ← tok
+  match t with
+  | "P" => pure .pass
+  | "F" => pure .fail
+  | "E" => pure .error
+  | "X" => pure .exception
+  | _ => failure
+
+structure C12Row where
+  incl : Bool
+  excl : Bool
+  supported : Bool
+  mapped : Bool
+  outcome : Outcome
+
+def pC12Row : P C12Row := do
+  let i ← pBool
+  let e ← pBool
+  let s ← pBool
+  let m ← pBool
+  let o ← pOutcome
+  pure ⟨i, e, s, m, o⟩
+
+def c12Code (s : Suite Nat) : String :=
+  match s.kind, s.status with
+  | .compared .pass, _ => "P"
+  | .compared .fail, _ => "F"
+  | .compared .error, _ => "E"
+  | .compared .exception, _ => "X"
+  | .missingSource, .skipped => "ms"
+  | .missingSource, _ => "MS"
+  | .missingReference, .skipped => "mr"
+  | .missingReference, _ => "MR"
+  | .unsupported, _ => "U"
+  | .filtered, _ => "D"
+
+/-- suites sorted by (id, code), rendered `id:code` joined by `,` (`-` if there is none) -/
+def c12ShowSuites (ss : List (Suite Nat)) : String :=
+  let items := ss.map (fun s => (s.path, c12Code s))
+  let sorted := items.mergeSort (fun a b => a.1 < b.1 || (a.1 == b.1 && a.2 ≤ b.2))
+  if sorted.isEmpty then "-" else ",".intercalate (sorted.map (fun x => s!"{x.1}:{x.2}"))
+
+def c12Show (exit orphans : Nat) (ss : List (Suite Nat)) : String :=
+  s!"{exit}|{orphans}|{c12ShowSuites ss}"
+
+def opC12Dir : P String := do
+  let ims ← pBool
+  let imr ← pBool
+  let res ← pList pNat
+  let ref ← pList pNat
+  let rows ← pList pC12Row
+  let n := rows.length
+  if !(res.all (· < n) && ref.all (· < n)) then failure
+  let tbl := rows.toArray
+  let get : Nat → Option C12Row := fun i => tbl[i]?
+  let incl := fun i => ((get i).map (·.incl)).getD false
+  let excl := fun i => ((get i).map (·.excl)).getD false
+  let supported := fun i => ((get i).map (·.supported)).getD false
+  let mapped := fun i => ((get i).map (·.mapped)).getD false
+  let outcome := fun i => ((get i).map (·.outcome)).getD .exception
+  let flags : Flags := ⟨ims, imr⟩
+  let r := DirMode.run res ref incl excl supported mapped outcome flags
+  let hyp := decide res.Nodup && decide ref.Nodup
+  let model := c12Show r.exitCode r.discardedOrphanCount r.suites
+  let spec := c12Show (Spec.exitCode res ref incl excl supported mapped outcome flags)
+    (Spec.orphanCount res ref incl excl supported mapped)
+    (Spec.suites res ref incl excl supported mapped outcome flags)
+  pure s!"hyp={showBool hyp} model={model} spec={if hyp then spec else "-"}"
+
+def c12ShowIds (xs : List Nat) : String :=
+  if xs.isEmpty then "-" else ",".intercalate (xs.map toString)
+
+def opC12Fm : P String := do
+  let src ← pList pNat
+  let ref ← pList pNat
+  let r := findMatches src ref
+  pure s!"hyp=1 model={c12ShowIds r.matched}|{c12ShowIds r.orphansSource}|{c12ShowIds r.orphansReference}"
 
 def handleC12 (op : String) : Option (P String) :=
   match op with
+  | "c12dir" => some opC12Dir
+  | "c12fm" => some opC12Fm
   | _ => none
 
 end Fc.Drv
